@@ -6,6 +6,7 @@ Oracle: response automaton (vf.models.respparse.analyse_server_stream) + close/q
 """
 from __future__ import annotations
 
+import hashlib
 import itertools
 import os
 import shutil
@@ -305,7 +306,10 @@ def run_scenario(ctx, scn):
 
     loop = new_loop()
     holder["loop"] = loop
-    sim = ServerSim(factory, loop=loop, log=log)
+    # what getpeername() can report: IPv4 pair, IPv6 4-tuple (with a zone), nothing at all (peer already gone)
+    h16 = int(hashlib.sha1(repr(scn.get("request", ""))[:64].encode()).hexdigest()[:4], 16)
+    peername = [("192.0.2.7", 40001), ("192.0.2.7", 40001), ("2001:db8::7", 40001, 0, 0), ("fe80::1%eth0", 40001, 0, 2), None][h16 % 5]
+    sim = ServerSim(factory, peername=peername, loop=loop, log=log)
     states = set()
     try:
         sim.start()
